@@ -19,7 +19,8 @@ RULE = ("seeded systems whose residues are split into given (-c), centre-only (-
         "input/output .gro differential per atom, centre-of-geometry of centre-only residues, the set of residues "
         "handed to NonBondEngine.add_positions must equal the missing/named set, and after every remove_positions "
         "every supplied residue must still be in the engine at its supplied point. non-trivial = run with >= 1 "
-        "supplied and >= 1 generated residue; distinct = hash(topology, input structure, options)")
+        "supplied and >= 1 generated residue; distinct = hash(topology, input structure, options)"
+        ' Later strata: PDB inputs, -c together with -mc, -lig on hosts with supplied atoms / centres, -start (index and name form) on supplied residues, -ign with a density box and a structure without box; a molecule that has coordinates is never started on the grid.')
 ASSUMPTIONS = ["supplied coordinates are written with 3 decimals and must be reproduced digit for digit (|out - in| < 5e-8)",
                "centre-only residues: centre of geometry of the 3-decimal output atoms within 6e-4 nm of the given centre (C06 checks the exact in-memory value)",
                "ignored molecules get their coordinates from the input structure (they cannot be written otherwise)"]
